@@ -26,6 +26,7 @@ int main(int argc, char **argv)
 		char key[64];
 		snprintf(key, sizeof(key), "exh:block=%d", vh_opt.proc);
 		vh_case_key(key);
+		vh_case_budget(900);
 		for (uint64_t s = lo; s < hi; s += stride) {
 			uint32_t st = (uint32_t)s;
 			uint32_t r = rand31_r(&st);
@@ -60,6 +61,7 @@ int main(int argc, char **argv)
 		uint32_t s = 1;
 		uint64_t steps = 0;
 		vh_case_key("trajectory-from-1");
+		vh_case_budget(1800);
 		do {
 			rand31_r(&s);
 			steps++;
